@@ -171,6 +171,8 @@ def replay(w):
     if w.get('kind') != 'sift':
         return False, 'unknown witness kind'
     x = np.array(w['x'], float)
+    if w.get('dtype'):
+        x = x.astype(w['dtype'])         # the same (integer-valued) samples stored as integers / single precision
     o = w.get('opts', {})
     kw = {}
     if o:
@@ -225,6 +227,21 @@ def refute(tier, seed, emit):
         ok, msg = replay(w)
         if ok:
             emit.violation('complete-decomposition' if 'sum back' in msg else 'final-component-non-oscillatory' if 'oscillates' in msg else 'sift-raises', w, msg)
+        if emit.full:
+            return
+    # integer-typed recordings (raw ADC counts, integer random walks) and single precision: still a complete decomposition
+    nint = 120 if tier == 'quick' else 1200
+    emit.scope('%d seeded integer-valued signals (random walks in counts, rounded multi-tone signals; length 8..200) stored as int64 / int32 / float32 x stop rule {sd, rilling, fixed}' % nint)
+    for q in range(nint):
+        n = int(r.randint(8, 201))
+        xi = np.cumsum(r.randint(-3, 4, size=n)) if q % 2 else np.round(40 * np.sin(2 * np.pi * r.uniform(2, 9) * np.linspace(0, 1, n)) + 15 * np.sin(2 * np.pi * r.uniform(0.5, 2) * np.linspace(0, 1, n)) + 3 * r.randn(n))
+        dt = ['int64', 'int32', 'float32'][q % 3]
+        o = {} if q % 4 == 0 else {'rule': ['sd', 'rilling', 'fixed'][q % 3], 'max_iters': 10 if q % 3 == 2 else 1000}
+        emit.case(('int', q), nontrivial=dt != 'float32', contract='sift')
+        w = {'kind': 'sift', 'x': np.asarray(xi, float).tolist(), 'opts': o, 'dtype': dt}
+        ok, msg = replay(w)
+        if ok:
+            emit.violation(('complete-decomposition' if 'sum back' in msg else 'final-component-non-oscillatory' if 'oscillates' in msg else 'sift-raises') + ':%s-input' % dt, w, msg)
         if emit.full:
             return
     # the same decomposition at other amplitudes: exact power-of-two rescaling of input and threshold (Volt / Tesla scale recordings, raw ADC counts)
